@@ -23,8 +23,8 @@ import time
 from . import build
 
 VERIF = build.VERIF
-WORK = os.path.join(VERIF, '.work')
-EVID = os.path.join(VERIF, 'evidence')
+WORK = os.environ.get('VF_WORK') or os.path.join(VERIF, '.work')
+EVID = os.environ.get('VF_EVID') or os.path.join(VERIF, 'evidence')
 KNOWN = os.path.join(VERIF, 'known_findings.json')
 NCPU = os.cpu_count() or 4
 
@@ -109,6 +109,7 @@ class Run(object):
         self.min_distinct = 2
         self.sanitizer_reports = 0
         self.flavours_used = set()
+        self.unit_secs = []
         self._lock = threading.Lock()
 
     # ---- accumulation -------------------------------------------------
@@ -286,6 +287,8 @@ class Run(object):
                     self.calls[k] = self.calls.get(k, 0) + v
                 for s in ev.get('samples', []):
                     self.sample(s)
+                sec = ev.get('secs', 0)
+                self.unit_secs.append((sec, ev.get('i')))
                 for key, det in ev.get('viol', []):
                     det = dict(det)
                     det.setdefault('unit', ev.get('unit'))
@@ -395,6 +398,9 @@ class Run(object):
             'known_findings_hit': [k for k, _, _ in known_hit],
             'new_violation_keys': [k for k, _ in new],
             'inconclusive': self.inconclusive[:10],
+            'units_run': len(self.unit_secs),
+            'unit_cpu_s_total': round(sum(x for x, _ in self.unit_secs), 1),
+            'slowest_units': sorted(self.unit_secs, reverse=True)[:3],
         }
         if self.exhaustive is not None:
             cov['exhaustive'] = bool(self.exhaustive)
